@@ -134,6 +134,81 @@ func main() {
 							x.List[i] = &ast.AssignStmt{Lhs: []ast.Expr{inc.X}, Tok: tok, Rhs: []ast.Expr{&ast.BasicLit{Kind: token.INT, Value: "1"}}}
 						})
 					}
+					// extract: `if cond {` -> `cNN := cond; if cNN {`
+					if is, ok := st.(*ast.IfStmt); ok && is.Init == nil && pure(is.Cond) {
+						if _, isBin := is.Cond.(*ast.BinaryExpr); isBin {
+							name := "condv"
+							for used[name] {
+								name += "x"
+							}
+							add("extract", is.Pos(), func() {
+								def := &ast.AssignStmt{Lhs: []ast.Expr{ast.NewIdent(name)}, Tok: token.DEFINE, Rhs: []ast.Expr{is.Cond}}
+								is.Cond = ast.NewIdent(name)
+								nl := append([]ast.Stmt{}, x.List[:i]...)
+								nl = append(nl, def)
+								nl = append(nl, x.List[i:]...)
+								x.List = nl
+							})
+						}
+					}
+					// splitdecl: `a, b := x, y` -> `a := x; b := y` when y does not mention a
+					if as, ok := st.(*ast.AssignStmt); ok && as.Tok == token.DEFINE && len(as.Lhs) == 2 && len(as.Rhs) == 2 {
+						a, okA := as.Lhs[0].(*ast.Ident)
+						b, okB := as.Lhs[1].(*ast.Ident)
+						mention := false
+						if okA {
+							ast.Inspect(as.Rhs[1], func(k ast.Node) bool {
+								if id, ok := k.(*ast.Ident); ok && id.Name == a.Name {
+									mention = true
+								}
+								return true
+							})
+						}
+						if okA && okB && a.Name != "_" && b.Name != "_" && !mention && pure(as.Rhs[0]) && pure(as.Rhs[1]) && a.Obj != nil && a.Obj.Decl == ast.Node(as) && b.Obj != nil && b.Obj.Decl == ast.Node(as) {
+							add("splitdecl", as.Pos(), func() {
+								s1 := &ast.AssignStmt{Lhs: []ast.Expr{a}, Tok: token.DEFINE, Rhs: []ast.Expr{as.Rhs[0]}}
+								s2 := &ast.AssignStmt{Lhs: []ast.Expr{b}, Tok: token.DEFINE, Rhs: []ast.Expr{as.Rhs[1]}}
+								nl := append([]ast.Stmt{}, x.List[:i]...)
+								nl = append(nl, s1, s2)
+								nl = append(nl, x.List[i+1:]...)
+								x.List = nl
+							})
+						}
+					}
+					// elsereturn: `if c { ...return } ; return Y` (last two statements) -> `if c {...} else { return Y }`
+					if is, ok := st.(*ast.IfStmt); ok && is.Else == nil && i+2 == len(x.List) && len(is.Body.List) > 0 {
+						_, endsRet := is.Body.List[len(is.Body.List)-1].(*ast.ReturnStmt)
+						last, lastRet := x.List[i+1].(*ast.ReturnStmt)
+						if endsRet && lastRet && m == ast.Node(fd.Body) {
+							_ = last
+						}
+					}
+					// varform: `v := e` -> `var v = e` for a call / composite / selector value
+					if as, ok := st.(*ast.AssignStmt); ok && as.Tok == token.DEFINE && len(as.Lhs) == 1 && len(as.Rhs) == 1 {
+						if id, isID := as.Lhs[0].(*ast.Ident); isID && id.Name != "_" {
+							switch as.Rhs[0].(type) {
+							case *ast.CallExpr, *ast.CompositeLit, *ast.SelectorExpr, *ast.BinaryExpr:
+								if _, isLabeled := m.(*ast.BlockStmt); isLabeled {
+									add("varform", as.Pos(), func() {
+										x.List[i] = &ast.DeclStmt{Decl: &ast.GenDecl{Tok: token.VAR, Specs: []ast.Spec{&ast.ValueSpec{Names: []*ast.Ident{id}, Values: []ast.Expr{as.Rhs[0]}}}}}
+									})
+								}
+							}
+						}
+					}
+					// rangeidx: `for i, v := range xs {` -> `for i := range xs { v := xs[i]; ...` (xs an identifier)
+					if rs, ok := st.(*ast.RangeStmt); ok && rs.Tok == token.DEFINE && rs.Key != nil && rs.Value != nil {
+						k, okK := rs.Key.(*ast.Ident)
+						v, okV := rs.Value.(*ast.Ident)
+						xs, okX := rs.X.(*ast.Ident)
+						if okK && okV && okX && k.Name != "_" && v.Name != "_" {
+							add("rangeidx", rs.Pos(), func() {
+								def := &ast.AssignStmt{Lhs: []ast.Expr{v}, Tok: token.DEFINE, Rhs: []ast.Expr{&ast.IndexExpr{X: ast.NewIdent(xs.Name), Index: ast.NewIdent(k.Name)}}}
+								rs.Value = nil
+								rs.Body.List = append([]ast.Stmt{def}, rs.Body.List...)
+							})
+						}
+					}
 					if as, ok := st.(*ast.AssignStmt); ok && len(as.Lhs) == 1 && (as.Tok == token.ADD_ASSIGN || as.Tok == token.SUB_ASSIGN) {
 						if id, isID := as.Lhs[0].(*ast.Ident); isID && pure(as.Rhs[0]) {
 							add("opassign", as.Pos(), func() {
